@@ -29,6 +29,7 @@ fn main() {
     match prop {
         "C05" => c05::run(seed, tier, &mut out),
         "C05P" => c05::run_pos(seed, tier, &mut out),
+        "C05V" => c05::run_retarget(seed, tier, &mut out),
         "C07" => c07::run(seed, tier, &mut out),
         "C07T" => c07::run_threads(seed, tier, &mut out),
         "C07G" => c07::run_glue(seed, tier, &mut out),
